@@ -5,6 +5,7 @@ open AbtemVerif AbtemVerif.Proto AbtemVerif.ExitPlanes AbtemVerif.Multislice
 /- requests (one per line):
    `validate none|int:<k>|tuple:<ints> <n>`            → `ok <ints>` | `err <kind>`
    `after <planes> <n>`                                 → `ok <T/F list>` | `err <kind>`
+   `window <planes> <a> <b>`                            → `ok <exit planes of the slice window [a,b)>`
    `thick <planes> <rats>`                              → `ok <rats>` | `err <kind>`
    `msd <ensAxis T/F> <planes> <num_slices> <configs: listlist of slice ids> [<incident waves in reciprocal space T/F>]`
         (history marker `0` = the representation change `ensure_real_space`)
@@ -47,6 +48,13 @@ def handle : List String → String
     match parseList? parseInt? planes, parseNat? n with
     | some pl, some n => showRes (showList showBool) (exitPlaneAfter pl n)
     | _, _ => "bad-op"
+  | ["window", planes, a, b] =>
+    match parseList? parseInt? planes, parseNat? a, parseNat? b with
+    | some pl, some a, some b =>
+      match windowPlanes pl a b with
+      | some r => s!"ok {showList showInt r}"
+      | none => s!"ok {showInt ((b : Int) - (a : Int) - 1)}"      -- `exit_planes=None` → the last slice of the window
+    | _, _, _ => "bad-op"
   | ["thick", planes, ts] =>
     match parseList? parseInt? planes, parseList? parseRat? ts with
     | some pl, some ts => showRes (showList showRat) (exitThicknesses pl ts)
